@@ -38,6 +38,14 @@ SCENARIOS = {
     'registered_default_no_dir_files': dict(regs=[('foo', '!'), ('x', 'role:a'), ('bar', 'role:zz')],
                                             main_old={'default': '@', 'x': 'role:a'}, main_new={'default': '@', 'x': 'role:b'},
                                             dir_old=None, dir_new=None, query='foo', no_model=True),
+    # a main file without rules (comments only): the rule store is empty right after the main-file step, which every
+    # caller notices in its own load step (`not self.rules`) and repairs before deciding
+    'empty_main_dir_edit': dict(regs=[('p', '!'), ('x', 'role:a'), ('nz', 'role:zz')], main_old={}, main_new={},
+                                dir_old={'p': 'role:a', 'default': '@'}, dir_new={'p': 'role:a', 'default': '@', 'y': '@'},
+                                query='p', no_model=True),
+    'main_emptied_dir_kept': dict(regs=[('p', '!'), ('x', 'role:a'), ('nz', 'role:zz')], main_old={'x': 'role:a', 'z': '@'},
+                                  main_new={}, dir_old={'p': 'role:a', 'default': '@'}, dir_new={'p': 'role:a', 'default': '@'},
+                                  query='p', no_model=True),
     # both threads evaluate a rule built from references; the files do not change the referenced rules
     'alias_evaluation': dict(regs=[('x', 'role:a')], main_old={'admin': 'role:a', 'owner': 'role:a or role:b', 'x': 'role:a',
                                                               'both': 'rule:admin and rule:owner and not rule:nobody',
@@ -80,7 +88,8 @@ def setup(sc):
         return e
     e = mk()
     old = impl.outcome(lambda: e.enforce(sc['query'], {}, dict(CREDS)))
-    _w(os.path.join(d, 'policy.yaml'), json.dumps(main_new), 2000)
+    if main_new != main_old:
+        _w(os.path.join(d, 'policy.yaml'), json.dumps(main_new), 2000)
     if sc['dir_new'] != sc['dir_old']:
         _w(os.path.join(d, 'policy.d', 'a.yaml'), json.dumps(sc['dir_new']), 2000)
     return d, e, old, mk
@@ -109,23 +118,38 @@ def one(sc, segments):
         shutil.rmtree(d, ignore_errors=True)
 
 
+def _explore(arg):
+    """All schedules of one scenario: [(segments, outcomes, old, new, final, pauses)]."""
+    name, thorough = arg
+    sc = SCENARIOS[name]
+    outs, old, new, final, counts, _ = one(sc, [(0, None), (1, None)])     # sequential: A then B
+    nlines = counts[0]
+    scheds = [[(0, k), (1, None), (0, None)] for k in range(1, nlines + 1)]
+    if thorough or name == 'alias_evaluation':
+        # two context switches (quick: a coarser grid on one scenario, enough to meet the iteration finding F10-iteration)
+        step = max(1, nlines // (40 if thorough else 20))
+        for k in range(1, nlines + 1, step):
+            for j in range(1, nlines + 1, step):
+                scheds.append([(0, k), (1, j), (0, None), (1, None)])
+    res = []
+    for segs in scheds:
+        outs, old, new, final, counts, pauses = one(sc, segs)
+        res.append((segs, outs, old, new, final, pauses))
+    return res
+
+
 def run(ctx, rep):
     total_sched = 0
     model_reqs = []
     observed = {}
+    # the scenarios are independent: explore them in parallel processes (each schedule is still strictly sequential
+    # inside its process: exactly one of the two threads is runnable at any time)
+    import concurrent.futures
+    with concurrent.futures.ProcessPoolExecutor(max_workers=min(12, len(SCENARIOS))) as ex:
+        explored = dict(zip(SCENARIOS, ex.map(_explore, [(n, ctx.thorough) for n in SCENARIOS])))
     for name, sc in SCENARIOS.items():
-        outs, old, new, final, counts, _ = one(sc, [(0, None), (1, None)])     # sequential: A then B
-        nlines = counts[0]
-        scheds = [[(0, k), (1, None), (0, None)] for k in range(1, nlines + 1)]
-        if ctx.thorough or name == 'alias_evaluation':
-            # two context switches (quick: a coarser grid on one scenario, enough to meet the iteration finding F10-iteration)
-            step = max(1, nlines // (40 if ctx.thorough else 20))
-            for k in range(1, nlines + 1, step):
-                for j in range(1, nlines + 1, step):
-                    scheds.append([(0, k), (1, j), (0, None), (1, None)])
         seen = set()
-        for segs in scheds:
-            outs, old, new, final, counts, pauses = one(sc, segs)
+        for segs, outs, old, new, final, pauses in explored[name]:
             total_sched += 1
             # a thread is the "reloader" if it was preempted inside load_rules, else a "bystander" (it ran its own
             # load step without interruption); the window is open if any thread was preempted inside load_rules
